@@ -104,3 +104,122 @@ def nested_decl(name, w):
         lb = f"#[bits({a}..={w - 1}, rw)]" if (w - a) > 1 else f"#[bit({a}, rw)]"
         return f"#[bitfield(u{w})]\npub struct {name} {{\n    {la}\n    lo: {ta},\n    {lb}\n    hi: {tb},\n}}"
     return f"#[bitfield(u{w})]\npub struct {name} {{\n    #[bit(0, rw)]\n    lo: bool,\n}}"
+
+
+# ---- arrays -----------------------------------------------------------------------------------
+def array_shapes(W, max_w=None, max_K=16):
+    """all (lo, w, s, K) with K>=2, s>=w, (K-1)*s+lo+w <= W"""
+    out = []
+    for w in range(1, (max_w or W // 2) + 1):
+        for s in range(w, W):
+            for lo in range(0, W):
+                for K in range(2, max_K + 1):
+                    if (K - 1) * s + lo + w <= W:
+                        out.append((lo, w, s, K))
+    return out
+
+
+def elem_type_variants(w, idx=0):
+    """element presentations possible for a width"""
+    v = []
+    if w == 1:
+        v = [T_bool(), T_uint(1)]
+    elif is_native(w):
+        v = [T_uint(w), T_int(w)]
+    else:
+        v = [T_uint(w)]
+    return v
+
+
+def array_field(lo, w, s, K, ty=None, access="rw", explicit=None, name="a"):
+    if explicit is None:
+        explicit = (s != w)
+    return Field(name, ty or ty_for_width(w), [(lo, w)], (K, s, explicit), access)
+
+
+def fill_shapes(W):
+    """arrays that end exactly on the top bit, K = 2 cases, and the widest element that fits twice"""
+    out = []
+    for w in [1, 2, 3, 4, 5, 7, 8, 9, 16, 32, 64]:
+        if 2 * w > W:
+            continue
+        K = W // w
+        out.append((0, w, w, K))  # fill from 0
+        out.append((W - 2 * w, w, w, 2))  # K=2 ending at top
+        if w + 1 <= W // 2:
+            s = w + 1
+            K2 = (W - w) // s + 1
+            out.append((W - ((K2 - 1) * s + w), w, s, K2))  # gaps, ends at top
+        if W - 2 * w - 3 >= 0:
+            out.append((3, w, W - w - 3, 2))  # two elements far apart, second ends at top
+    res = []
+    for x in out:
+        lo, w, s, K = x
+        if K >= 2 and lo >= 0 and s >= w and (K - 1) * s + lo + w <= W and x not in res:
+            res.append(x)
+    return res
+
+
+# ---- non-contiguous lists ---------------------------------------------------------------------
+def random_list(rnd, W, w, parts=None):
+    """w bits as 2..8 pairwise-disjoint ranges placed in W bits, list order shuffled"""
+    k = parts or rnd.randint(2, min(8, w))
+    k = min(k, w)
+    # split w into k positive parts
+    cuts = sorted(rnd.sample(range(1, w), k - 1)) if k > 1 else []
+    sizes = [b - a for a, b in zip([0] + cuts, cuts + [w])]
+    free = W - w
+    # distribute free bits as gaps (k+1 gaps)
+    gaps = [0] * (k + 1)
+    for _ in range(free):
+        gaps[rnd.randrange(k + 1)] += 1
+    pos, rs = 0, []
+    order = list(range(k))
+    rnd.shuffle(order)
+    sizes_placed = [sizes[i] for i in order]
+    for i, n in enumerate(sizes_placed):
+        pos += gaps[i]
+        rs.append((pos, n))
+        pos += n
+    # rs is ascending by position; choose the declaration order
+    mode = rnd.choice(["asc", "desc", "shuffle", "shuffle"])
+    if mode == "desc":
+        rs.reverse()
+    elif mode == "shuffle":
+        rnd.shuffle(rs)
+    return rs
+
+
+def list_type_for(rnd, w):
+    if is_native(w):
+        return rnd.choice([T_uint(w), T_uint(w), T_int(w)])
+    return T_uint(w)
+
+
+def documented_lists(W):
+    """shapes taken from README / bitbybit-tests, re-instantiated where they fit"""
+    out = []
+    if W >= 32:
+        out.append(("riscv S imm", T_uint(12), [(7, 5), (25, 7)]))
+        out.append(("riscv B imm", T_uint(12), [(8, 4), (25, 6), (7, 1), (31, 1)]))
+        out.append(("byteswap32", T_uint(32), [(24, 8), (16, 8), (8, 8), (0, 8)]))
+        out.append(("byteswap32 signed", T_int(32), [(24, 8), (16, 8), (8, 8), (0, 8)]))
+    if W >= 24:
+        out.append(("byteswap24", T_uint(24), [(16, 8), (8, 8), (0, 8)]))
+    if W >= 64:
+        out.append(("byteswap64", T_uint(64), [(56, 8), (48, 8), (40, 8), (32, 8), (24, 8), (16, 8), (8, 8), (0, 8)]))
+        out.append(("halfswap64", T_uint(64), [(32, 32), (0, 32)]))
+    if W >= 128:
+        out.append(("halfswap128", T_uint(128), [(64, 64), (0, 64)]))
+        out.append(("wide list with 64-bit member", T_uint(100), [(64, 36), (0, 64)]))
+        out.append(("i128 swapped halves", T_int(128), [(64, 64), (0, 64)]))
+    if W >= 8:
+        out.append(("bitswap8", T_uint(8), [(7 - i, 1) for i in range(8)]))
+        out.append(("bitswap7", T_uint(7), [(6 - i, 1) for i in range(7)]))
+        out.append(("top+bottom", T_uint(2), [(W - 1, 1), (0, 1)]))
+        out.append(("bottom+top", T_uint(2), [(0, 1), (W - 1, 1)]))
+        out.append(("signed across", T_int(8), [(W - 4, 4), (0, 4)]))
+    if W >= 3:
+        out.append(("ends", T_uint(2), [(0, 1), (W - 1, 1)]))
+        out.append(("mid single in list", T_uint(1), [(W // 2, 1)]))
+    return out
